@@ -392,6 +392,10 @@ func regC08(add addFn, p pFn) {
 }
 
 func regC15(add addFn, p pFn) {
+	for _, c := range [][2]int{{0, 0}, {1, 1}, {2, 0}, {3, 1}} {
+		add(&Instance{Property: "C15", Name: "client-from-ccache-n" + itoa(c[0]) + "-conf" + itoa(c[1]), Entry: "client.VH_C15_ClientFromCCache", Params: p("creds", c[0], "conf", c[1]), Stubs: []string{"lineartime", "asn1pair"}, Replay: "stubbed",
+			Reach: []string{"checked"}, Bound: "a cache model with a TGT credential, " + itoa(c[0]) + " service credentials (distinct server names; keys, key types, cipher bytes and the four times symbolic) and " + itoa(c[1]) + " configuration entries, handed to client.NewFromCCache"})
+	}
 	for v := 1; v <= 4; v++ {
 		add(&Instance{Property: "C15", Name: "writer-v" + itoa(v) + "-c1", Entry: "credentials.VH_C15_IndependentWriter", Params: p("version", v, "creds", 1, "comps", 2, "slen", 1, "klen", 2, "addrs", 1, "tlen", 3, "hdr", 1, "conf", 0), Reach: []string{"parsed", "done"},
 			Bound: "1 credential; 0..2 components per principal, 1-byte strings, 2-byte key, 0..1 addresses and authdata entries, 3-byte ticket, 0..1-byte second ticket, v4 header with 1 field; all contents symbolic; times full 32-bit"})
